@@ -100,8 +100,10 @@ class Laser(object):
             names: dict mapping old to new names
         """
         self.data = rfn.rename_fields(self.data, names)
-        for old, new in names.items():
-            self.calibration[new] = self.calibration.pop(old)
+        # rename all at once, so that swaps and chains keep their calibrations
+        self.calibration = {
+            names.get(name, name): cal for name, cal in self.calibration.items()
+        }
 
     def get(
         self,
